@@ -16,7 +16,7 @@ from core import Case
 from props.c13 import rand_annotation, enum_annotations, arr, F, U
 
 PID = "C12"
-LEAN_MODULES = ["MirProofs.Props.C12", "MirProofs.Props.C12_Segment"]
+LEAN_MODULES = ["MirProofs.Props.C12", "MirProofs.Props.C12_Segment", "MirProofs.Props.C12_Hierarchy"]
 RULE = ("annotations on the 1/32 lattice; refinements cut 1-5 intervals at interior lattice points, incl. points "
         "that coincide with the other annotation's boundaries and with frame times; weights rescaled by powers "
         "of two; non-trivial = the call returns a score (no exception)")
@@ -27,10 +27,11 @@ ASSUMPTIONS = [
     "belongs to C10/C11",
 ]
 UNPROVED = [
-    "hierarchy.lmeasure is a function of the frame labels only (its model belongs to C17; here: "
-    "samples_split_invariant + refinement oracle); for the six frame-based segment metrics this is now a theorem "
-    "(Props/C12_Segment.lean: scores_split_ref / scores_split_est, cuts at interior points s < r < e)",
-    "the T-measure's lca is not label-based and is not claimed",
+    "hierarchy.lmeasure is proved invariant under cutting a labelled segment of any level at any interior point, value or "
+    "exception (Props/C12_Hierarchy.lean: meet_split, lmeasure_split_ref / _est; hypothesis: the cut segment starts at a "
+    "time >= 0); the six frame-based segment metrics likewise (Props/C12_Segment.lean: scores_split_ref / _est)",
+    "the T-measure's lca is segment-based, not label-based: invariance is FALSE for it "
+    "(C12_Hierarchy.tmeasure_split_full_statement_false, concrete witness) and is not claimed",
 ]
 
 PITCH = ["C", "C#", "D", "Eb", "E", "F", "F#", "G", "Ab", "A", "Bb", "B"]
